@@ -14,7 +14,7 @@ run_prop() {
     wt="/tmp/sr_${n}_$$"
     git -C /repo worktree add -f "$wt" HEAD > /dev/null 2>&1
     if ! git -C "$wt" apply "$d/patch.diff" 2>/dev/null; then echo "$n PATCH-DOES-NOT-APPLY" >> "$out/result.txt"; else
-      mkdir -p "$verif/build/sr_$p"; rm -rf "$verif/build/sr_$p/coq"; cp -r "$verif/coq" "$verif/build/sr_$p/coq"
+      mkdir -p "$verif/build/sr_$p"; rm -rf "$verif/build/sr_$p/coq"; cp -a "$verif/coq" "$verif/build/sr_$p/coq"
       ( cd "$verif" && VERIF_BUILD="$verif/build/sr_$p" VERIF_COQ="$verif/build/sr_$p/coq" VERIF_EVIDENCE="$verif/build/sr_$p/evidence" VERIF_REPO="$wt" \
           timeout 3000 ./check "$p" "$tier" > "$out/$n.log" 2>&1 ); rc=$?
       fi_n=$(grep -c "^VIOLATION" "$out/$n.log"); nf=$(grep -c "no-failing-input-found" "$out/$n.log")
